@@ -11,7 +11,7 @@
   R-HERENEXT    Here and Next of every InlineCore overrider perform the same effects (symmetric / asymmetric twins)
   R-DESTROY     a coroutine frame is destroyed only by PromiseTypeDeleter::Delete
 """
-from vlib import pathwalk
+from vlib import lin, pathwalk
 
 EFFECTS = ('Submit', 'SubEqual', 'Sub', 'DecRef', 'IncRef', 'SetResult', 'SetResultImpl', 'Store', 'Consume',
            'CallImpl', 'Done', 'TransferExecutorTo', 'Call', 'Set', 'Here', 'Next', 'Impl', 'Swap', 'Reset')
@@ -189,8 +189,9 @@ def check_counter(ctx, fb, rule):
         subs = [c for c in f.calls() if c['cn'].endswith('::fetch_sub')]
         ok = len(subs) == 1
         if ok:
-            a = f.sn(subs[0]['args'][0])
-            ok = a['k'] == 'BinaryOperator' and a['op'] == '-' and 'wait_count' in f.text(a['ch'][1])
+            a = lin.from_ast(f, subs[0]['args'][0])  # any spelling: a named ready_count, (n - wait_count) ...
+            ok = a is not None and a.c == 0 and a.t.get('wait_count') == -1 and sorted(a.t.values()) == [-1, 1] or \
+                (a is not None and a.t.get('wait_count') == -1 and len(a.t) == 1 and a.c >= 1)  # sizeof...() folded
         if not ok:
             ctx.report(rule, key, f.where, 'the counter must be reduced by exactly the number of inputs that were '
                        'already complete at registration (count - wait_count)')
